@@ -50,6 +50,11 @@ func cmdCheck(args []string) int {
 	known := fs.String("known", "/verif/known_findings.json", "known findings file")
 	noNative := fs.Bool("no-native", false, "skip native replay/self-test")
 	fs.Parse(args)
+	if v := os.Getenv("SYMGO_WORKERS"); v != "" {
+		if n, err := strconv.Atoi(v); err == nil && n > 0 {
+			*workers = n
+		}
+	}
 	if v := os.Getenv("VERIF_TIER"); v != "" && *tier == "" {
 		*tier = v
 	}
